@@ -53,3 +53,9 @@ func VerifTransport(c interface{}) Transport {
 	}
 	return nil
 }
+
+// VerifServerConfig returns the configuration a Server was built with, so the
+// harness can wrap its callbacks for logging.
+func VerifServerConfig(srv *Server) *ServerConfig {
+	return srv.config
+}
